@@ -70,6 +70,20 @@ Definition enc_unit (_ : unit) : itree := L [].
    op 2: NTM   [ntm, fuel, word]  -> [levels, outcome, verdict]
    op 3: MNTM  [mntm, fuel, word] -> [yields, outcome, verdict]
    op 4: one deterministic table run three ways [dtm, fuel, word] -> three verdicts *)
+(* harness guard, not part of any theorem: the largest fuel along which no level is wider than cap
+   (the first too-wide level is still included, so that a disagreement in level size stays visible) *)
+Fixpoint ntm_safe_fuel (m : ntm) (cap fuel : nat) (cur : list pcfg) : nat :=
+  match cur with
+  | [] => 0
+  | _ =>
+    if existsb (fun c => memb (fst c) (nt_finals m)) cur then 0
+    else match fuel with
+         | 0 => 0
+         | S f => let nxt := cfg_dedup (flat_map (ntm_next m) cur) in
+                  if Nat.ltb cap (length nxt) then 1 else S (ntm_safe_fuel m cap f nxt)
+         end
+  end.
+
 Definition d03 (op : nat) (t : itree) : itree :=
   match op, t with
   | 1, L [tm; tf; tw] =>
@@ -85,6 +99,14 @@ Definition d03 (op : nat) (t : itree) : itree :=
       let (ys, o) := ntm_levels m f w in
       L [enc_list (enc_list enc_pcfg) ys; enc_res enc_unit o; enc_res Ib (ntm_accepts m f w)]
     | _, _, _ => bad_input
+    end
+  | 2, L [tm; tf; tw; tcap] =>    (* same, but never explore past a level wider than cap (harness guard) *)
+    match dec_ntm tm, dec_nat tf, dec_nl tw, dec_nat tcap with
+    | Some m, Some f, Some w, Some cap =>
+      let f' := Nat.min f (ntm_safe_fuel m cap f [ntm_start m w]) in
+      let (ys, o) := ntm_levels m f' w in
+      L [enc_list (enc_list enc_pcfg) ys; enc_res enc_unit o; enc_res Ib (ntm_accepts m f' w); Ib (Nat.ltb f' f)]
+    | _, _, _, _ => bad_input
     end
   | 3, L [tm; tf; tw] =>
     match dec_mntm tm, dec_nat tf, dec_nl tw with
